@@ -63,8 +63,18 @@ func vhSameLog(a, b []int) bool {
 }
 
 func vhCheckOrder(p fp.StateT[int, int], wantV func() int, l string, fnCalls *int, steps ...vhStep) {
+	vhCheckOrderOnce(p, wantV, l, fnCalls, "s0", steps...)
+	// the program is a value: a second run (from another state) obeys the same rules - in particular it starts
+	// again at the first step and stops again at the first failing one
+	if fnCalls != nil {
+		*fnCalls = 0
+	}
+	vhCheckOrderOnce(p, wantV, l+" (second run)", fnCalls, "s1", steps...)
+}
+
+func vhCheckOrderOnce(p fp.StateT[int, int], wantV func() int, l string, fnCalls *int, sname string, steps ...vhStep) {
 	vhOrd = nil
-	s0 := zz.Int("s0")
+	s0 := zz.Int(sname)
 	r, s := p(s0)
 	failed, ws, wlog := vhRefRun(s0, steps...)
 	zz.Assert(vhSameLog(vhOrd, wlog), l+": steps run left to right, once each, none after the first failure")
@@ -153,7 +163,8 @@ func VH_c02_statet_ap_family() {
 		supplied := 0
 		p := ApFunc(stf, func() fp.StateT[int, int] { supplied++; return b.prog() })
 		vhCheckOrder(p, func() int { return zz.UFInt("f", a.v, b.v) }, "ApFunc", &calls, a, b)
-		zz.Assert(supplied <= 1 && (a.ok || supplied == 0), "ApFunc: the supplier runs at most once and not after a failure")
+		// two runs of the program (see vhCheckOrder): at most once per run, never after a failure of the program operand
+		zz.Assert(supplied <= 2 && (a.ok || supplied == 0), "ApFunc: the supplier runs at most once per run and not after a failure")
 	}
 }
 
